@@ -67,7 +67,11 @@ func (e *exec) walTruncationCheck(where string) {
 	}
 	_, orphans := walorder.RefOrder(view)
 	hasRecord := map[uint64]bool{}
+	cpHasRecord := map[uint64]bool{} // series records inside the checkpoint itself
 	for _, en := range view.Entries {
+		if en.What == "series" && en.InCP {
+			cpHasRecord[en.Ref] = true
+		}
 		if en.What == "series" {
 			hasRecord[en.Ref] = true
 		} else {
@@ -81,12 +85,16 @@ func (e *exec) walTruncationCheck(where string) {
 	entryKey := func(en walorder.Entry) string {
 		return fmt.Sprintf("%d/%s/%d/%d/%s", en.Seg, en.What, en.Ref, en.T, en.Key)
 	}
+	cpKey := func(en walorder.Entry) string {
+		return fmt.Sprintf("cp/%s/%d/%d/%s", en.What, en.Ref, en.T, en.Key)
+	}
 	if len(orphans) > 0 {
 		full := walorder.ReadWAL(e.walArchive)
 		res, _ := walorder.RefOrder(full)
 		for i, en := range full.Entries {
 			if en.What != "series" && res[i] != "" {
 				hadRecord[entryKey(en)] = true
+				hadRecord[cpKey(en)] = true // a checkpoint re-writes the entry: its segment is not kept
 			}
 		}
 	}
@@ -95,7 +103,7 @@ func (e *exec) walTruncationCheck(where string) {
 		switch {
 		case !hasRecord[o.Entry.Ref]:
 			dropped = append(dropped, o) // no label record anywhere in the log
-		case !o.Entry.InCP && hadRecord[entryKey(o.Entry)]:
+		case !o.Entry.InCP && hadRecord[entryKey(o.Entry)], o.Entry.InCP && hadRecord[cpKey(o.Entry)] && !cpHasRecord[o.Entry.Ref]:
 			dropped = append(dropped, o) // its label record was dropped; the ref was issued again afterwards
 			e.res.Count("orphans_of_a_reissued_ref", 1)
 		default:
